@@ -79,6 +79,11 @@ def make_cases(tier, seed, n_random=None, maxlen=None):
             # small units of work: a case that runs into the per-case timeout is reported undecided
             for part in ("prefix", "derivs"):
                 cases.append(dict(name=name, g=g, sr="MaxPlus", rename="id", order=None, maxlen=2, part=part))
+    # a centre-embedding block with four branches: its nullable weights need tens of thousands of agenda pops - inside the default
+    # budget; the fixed point must be reached, not abandoned (seeded changes C20-6 / C03-9)
+    from fractions import Fraction as F_
+    pal4 = type(doms[0][1])("N0", frozenset("abcd"), [(F_(22, 100), "N0", (t, "N0", t)) for t in "abcd"] + [(F_(12, 100), "N0", ())])
+    cases.append(dict(name="palindrome4", g=pal4, sr="Float", rename="id", order=None, maxlen=1, part="all"))
     return cases
 
 
